@@ -111,12 +111,17 @@ def run_tracers(units, seed):
 
 
 def gc_bins(keep_hash):
-    """remove cached binaries for other repo hashes (disk hygiene)"""
+    """remove cached binaries built for other states of /repo (disk hygiene).  Only for runs against /repo itself and
+    only files older than two hours, so concurrent runs against scratch copies (VERIF_REPO) never lose their caches."""
+    if REPO != "/repo":
+        return
+    now = time.time()
     for p in glob.glob(os.path.join(BUILD, "bin", "*-*-*")):
         parts = os.path.basename(p).rsplit("-", 2)
-        if len(parts) == 3 and parts[1] != keep_hash:
+        if len(parts) == 3 and parts[1] != keep_hash and len(parts[1]) == 16:
             try:
-                os.remove(p)
+                if now - os.path.getmtime(p) > 7200:
+                    os.remove(p)
             except OSError:
                 pass
 
